@@ -162,12 +162,21 @@ def main():
             print("    " + d.replace("\n", "\n    "))
     shutil.rmtree(SCRATCH, ignore_errors=True)
     if not sel:
+        keep = ""
+        try:
+            old_text = open(os.path.join(HERE, "RESULTS.md")).read()
+            mk = "\n## Behaviour-preserving edits"
+            if mk in old_text:
+                keep = old_text[old_text.index(mk):]
+        except OSError:
+            pass
         with open(os.path.join(HERE, "RESULTS.md"), "w") as fh:
             fh.write("# Self-test results (selftest/run.py)\n\n| mutant | checks run | outcome | obligations that fired |\n|---|---|---|---|\n")
             by = {m["id"]: m for m in todo}
             for i, st, _ in results:
                 fh.write("| %s | %s | %s | %s |\n" % (i, " ".join(by[i]["props"]) if i in by else "", st,
                                                  " ".join("`%s`" % k for k in fired.get(i, [])[:6])))
+            fh.write(keep)
     bad = [r for r in results if r[1] not in ("CAUGHT", "SILENT", "MISSED-AS-DOCUMENTED")]
     print("%d mutants, %d not caught / alarms" % (len(todo), len(bad)))
     return 1 if bad else 0
